@@ -89,6 +89,7 @@ pub struct Emit<W: Write> {
     pub out: W,
     pub positions: u64,
     pub perturb_every: u64,
+    pub seen: Vec<crate::board::zkey::ZKey>,
 }
 
 impl<W: Write> Emit<W> {
@@ -97,6 +98,15 @@ impl<W: Write> Emit<W> {
         self.positions += 1;
         let before = bv::dump(b);
         writeln!(self.out, "D {before}").unwrap();
+        // the repetition record through the public API only: which of the keys seen in this game count as reached
+        let k = b.zkey;
+        if !self.seen.contains(&k) {
+            self.seen.push(k);
+        }
+        let mut reached: Vec<u64> = self.seen.iter().filter(|k| b.position_reached(**k)).map(|k| bv::key_u64(*k)).collect();
+        reached.sort_unstable();
+        let r: Vec<String> = reached.iter().map(|x| format!("{x:x}")).collect();
+        writeln!(self.out, "H {}", r.join(",")).unwrap();
         let all = b.get_all_moves();
         let g: Vec<String> = all.iter().map(move_fields).collect();
         writeln!(self.out, "G {}", g.join(" ")).unwrap();
@@ -240,7 +250,7 @@ pub fn walk(args: &[String]) {
     let seed: u64 = arg(args, "seed", 1);
     let mut rng = Rng(seed.wrapping_mul(0x1000_0000_01B3).wrapping_add(shard));
     let out = std::io::stdout();
-    let mut e = Emit { out: std::io::BufWriter::with_capacity(1 << 20, out.lock()), positions: 0, perturb_every: arg(args, "perturb-every", 16) };
+    let mut e = Emit { out: std::io::BufWriter::with_capacity(1 << 20, out.lock()), positions: 0, perturb_every: arg(args, "perturb-every", 16), seen: vec![] };
 
     // corpus of minimised past failures first (one FEN + moves per line)
     if let Some(path) = arg_str(args, "corpus") {
@@ -251,6 +261,7 @@ pub fn walk(args: &[String]) {
                 }
                 let (fen, moves) = line.split_once(" moves ").unwrap_or((line, ""));
                 writeln!(e.out, "N {fen}").unwrap();
+        e.seen.clear();
                 let mut b = Board::from_fen(fen);
                 e.block(&mut b);
                 for mv in moves.split_whitespace() {
@@ -272,6 +283,7 @@ pub fn walk(args: &[String]) {
             continue;
         }
         writeln!(e.out, "N {fen}").unwrap();
+        e.seen.clear();
         let mut b = Board::from_fen(fen);
         dfs(&mut e, &mut b, dfs_depth);
     }
@@ -283,6 +295,7 @@ pub fn walk(args: &[String]) {
         }
         let fen = SEEDS[(rng.below(SEEDS.len() as u64)) as usize];
         writeln!(e.out, "N {fen}").unwrap();
+        e.seen.clear();
         let mut b = Board::from_fen(fen);
         let mut depth_stack: u64 = 0;
         let mut ply = 0;
@@ -305,6 +318,7 @@ pub fn walk(args: &[String]) {
                 // continue from a FEN reload of the current position (history forgotten)
                 let fen = render_fen(&b);
                 writeln!(e.out, "N {fen}").unwrap();
+        e.seen.clear();
                 b = Board::from_fen(&fen);
                 depth_stack = 0;
                 continue;
@@ -355,7 +369,7 @@ pub fn fen_stream(args: &[String]) {
     let seed: u64 = arg(args, "seed", 1);
     let mut rng = Rng(seed.wrapping_mul(0x1000_0000_01B3).wrapping_add(shard).wrapping_add(77));
     let out = std::io::stdout();
-    let mut e = Emit { out: std::io::BufWriter::with_capacity(1 << 20, out.lock()), positions: 0, perturb_every: arg(args, "perturb-every", 16) };
+    let mut e = Emit { out: std::io::BufWriter::with_capacity(1 << 20, out.lock()), positions: 0, perturb_every: arg(args, "perturb-every", 16), seen: vec![] };
     let mut n = 0;
     while n < count {
         let fen0 = SEEDS[(rng.below(SEEDS.len() as u64)) as usize];
@@ -392,6 +406,7 @@ pub fn fen_stream(args: &[String]) {
             _ => format!("{} {} {} {} {} {}", f[0], f[1], cs, f[3], half, full),
         };
         writeln!(e.out, "N {text}").unwrap();
+        e.seen.clear();
         let mut loaded = Board::from_fen(&text);
         e.block(&mut loaded);
         // play a few moves from the loaded position
